@@ -205,3 +205,56 @@ def gen(rng, focus, k=None, maxops=40):
     g.observe()
     g.emit("stats 0")
     return cfg, g.ops
+
+
+def gen_c17(rng, focus, k=None, maxops=40):
+    """C17: sends of all three partitioning kinds interleaved with partition additions/removals; every
+    partition is polled in full after every send. Keys: random bytes of length 1..255, plus keys
+    searched so that hash % n == 0."""
+    import vlib
+    cfg = draw_cfg(rng, k, {"dedup": 0})
+    g = Gen(rng, focus, nparts=rng.choice([1, 2, 3, 4, 5, 6]))
+    preamble(g)
+    n = rng.randint(8, maxops)
+    # candidate keys and their hashes (one harness call)
+    keys = []
+    for _ in range(40):
+        ln = rng.choice([1, 1, 2, 3, 8, 16, 64, 200, 255])
+        keys.append(bytes(rng.getrandbits(8) for _ in range(ln)).hex())
+    hs = vlib.hash32(keys)
+    keyed = list(zip(keys, hs))
+    nparts = g.nparts
+    for _ in range(n):
+        r = rng.random()
+        if r < 0.70:
+            g.tick()
+            cnt = rng.choice([1, 1, 2, 3])
+            kind = rng.random()
+            if kind < 0.4:
+                part = "balanced"
+            elif kind < 0.75:
+                # prefer keys that hit the `hash % n == 0` branch
+                zero = [kh for kh in keyed if nparts and kh[1] % max(nparts, 1) == 0]
+                kx, h = rng.choice(zero) if zero and rng.random() < 0.4 else rng.choice(keyed)
+                part = f"key:{kx}={h}"
+            else:
+                part = f"pid:{rng.randint(0, nparts + 2)}"
+            g.emit(f"send 0 #1 #1 {part} {g.msgs(cnt)}")
+            for p in range(1, nparts + 1):
+                g.emit(f"poll 0 #1 #1 {p} c:#9 offset:0 100000 0")
+        elif r < 0.80:
+            add = rng.choice([1, 1, 2])
+            g.emit(f"create-parts 0 #1 #1 {add}")
+            nparts += add
+        elif r < 0.90:
+            rem = rng.choice([1, 1, 2])
+            g.emit(f"delete-parts 0 #1 #1 {rem}")
+            nparts = max(0, nparts - rem)
+        elif r < 0.95:
+            g.emit("restart")
+        else:
+            g.emit("topic 0 #1 #1")
+    for p in range(1, nparts + 1):
+        g.emit(f"poll 0 #1 #1 {p} c:#9 offset:0 100000 0")
+    g.emit("topic 0 #1 #1")
+    return cfg, g.ops
